@@ -29,7 +29,7 @@ OUTSIDE = ["messages with unbalanced tags (the statement restricts to balanced o
 STUBS = []
 ASSUMPTIONS = ["SGR codes of a style are compared as a set (the order of codes inside one escape sequence does not change the look)"]
 
-TEXTS = ["", "x", " é", "a<b", "\n", ">"]
+TEXTS = ["", "x", " é", "a<b", "\n", ">", "i " + chr(92) + "< j"]        # the last piece holds an ESCAPED "<" (backslash + "<"): shown as "<"
 TAGS = [None, "info", "b", "fg=red;options=bold", "zz", "late"]
 SGR = re.compile(r"\x1b\[[0-9;]*m")
 TAG = re.compile(r"(?is)<(([a-z][a-z0-9,_=;-]*)|/([a-z][a-z0-9,_=;-]*)?)>")       # what the formatter regards as a tag
@@ -73,6 +73,7 @@ def _message_case(pieces, ti, tj, short):
     # the visible text is the message with its (registered / inline) tags taken out; unknown tags and '<' '>' are text
     expect = pieces[0] + (_open(ti) if ti == "zz" else "") + pieces[1] + (_open(tj) if tj == "zz" else "") + pieces[2] \
         + (_close(tj, short) if tj == "zz" and not short else "") + pieces[3] + (_close(ti, short) if ti == "zz" and not short else "") + pieces[4]
+    expect = expect.replace(chr(92) + "<", "<")          # an escaped "<" is the character "<"
     if plain != expect:
         return False
     # an undecorated output (plain stream) writes exactly the plain text, whatever formatter it was given
@@ -108,13 +109,13 @@ def _message_case(pieces, ti, tj, short):
 
 def message(p0: int, p1: int, p2: int, p3: int, p4: int, ti: int, tj: int, short: bool) -> bool:
     """
-    pre: 0 <= p0 < 6 and 0 <= p1 < 6 and 0 <= p2 < 6 and 0 <= p3 < 6 and 0 <= p4 < 6 and 0 <= ti < 6 and 0 <= tj < 6
+    pre: 0 <= p0 < 6 and 0 <= p1 < 6 and 0 <= p2 < 7 and 0 <= p3 < 6 and 0 <= p4 < 6 and 0 <= ti < 6 and 0 <= tj < 6
     pre: PART.get("p0") is None or (p0 == PART["p0"] and p4 == PART["p4"])
     pre: PART.get("ti") is None or ti == PART["ti"]
     pre: PART.get("short") is None or short == PART["short"]
     post: _
     """
-    pieces = [TEXTS[conc_int(k, 0, 5)] for k in (p0, p1, p2, p3, p4)]
+    pieces = [TEXTS[conc_int(k, 0, 6)] for k in (p0, p1, p2, p3, p4)]
     ti, tj, short = TAGS[conc_int(ti, 0, 5)], TAGS[conc_int(tj, 0, 5)], conc_bool(short)
     if short and (ti == "zz" or tj == "zz"):
         return True                                   # '</>' after an unknown tag would close something else: not a balanced message
@@ -172,6 +173,8 @@ def _style_case(route, fg, bg, bits, split=0):
             exp.add(code)
     if route == 4:
         out = f.format("x", st)
+        if exp and not re.match(r"^\x1b\[[0-9;]+m1 < 2 <3\x1b\[0m$", f.format("1 < 2 <3", st)):
+            return False                    # a "<" that is just a character does not switch the style off
     elif route == 5:
         f2 = AnsiFormatter(forced=True)
         f2.add_style(st)
@@ -186,6 +189,8 @@ def _style_case(route, fg, bg, bits, split=0):
     elif route == 2:
         f = AnsiFormatter(forced=True)
         out = f.format("x", st)
+        if exp and not re.match(r"^\x1b\[[0-9;]+m1 < 2 <3\x1b\[0m$", f.format("1 < 2 <3", st)):
+            return False                    # a "<" that is just a character does not switch the style off
     else:
         # passed for a single call, under a tag that is ALREADY registered with other colours (the passed style wins)
         st._tag = "info"
